@@ -111,6 +111,10 @@ func (k Keeper) ToggleClient(
 		return sdkerrors.Wrapf(types.ErrInvalidClientType, "cannot toggle client %s, client-type can't be the same", chainName)
 	}
 
+	// the records of the replaced client (consensus states of its type, its metadata) are not the
+	// new client's: left in place they make the light clients' pruning fail on every update
+	k.clearClientStore(ctx, chainName)
+
 	k.SetClientState(ctx, chainName, newClientState)
 	if err := newClientState.Initialize(ctx, k.cdc, k.ClientStore(ctx, chainName), newConsensusState); err != nil {
 		return err
@@ -135,6 +139,22 @@ func (k Keeper) ToggleClient(
 	}()
 
 	return nil
+}
+
+// clearClientStore removes every record kept for the client of the given chain.
+func (k Keeper) clearClientStore(ctx sdk.Context, chainName string) {
+	store := k.ClientStore(ctx, chainName)
+
+	var keys [][]byte
+	iterator := store.Iterator(nil, nil)
+	for ; iterator.Valid(); iterator.Next() {
+		keys = append(keys, iterator.Key())
+	}
+	iterator.Close()
+
+	for _, key := range keys {
+		store.Delete(key)
+	}
 }
 
 // UpdateClient updates the consensus state and the state root from a provided header.
